@@ -15,6 +15,9 @@ from .replay import ensure_repo_on_path
 CHECKS = {
     "C09": "harness.c09",
     "C10": "harness.c10",
+    "C11": "harness.c11",
+    "C12": "harness.c12",
+    "C13": "harness.c13",
 }
 
 
